@@ -120,10 +120,14 @@ def main(tier: str) -> int:
                              ("graph_serialize", "graph", 2, False), ("graph_serialize", "quad", 4, True), ("graph_serialize", "graph", 4, True),
                              ("graph_serialize-guess", "quad", 2, True), ("flat_to_file", "quad", 2, True), ("grouped_to_file", "quad", 4, True),
                              ("stream_frames-iter", "graph", 2, True)]
+            # namespace declarations on: rdflib binds ~30 namespaces by default, far more than these prefix tables hold; the DATA must come back all the same
+            nsdecl = bi % 4 == 1
             for entry, sclass, lt, delimited in (variants if tier == "thorough" else rnd.sample(variants, 3)):
                 cfg = impl.default_cfg(integ="rdflib", entry=entry.split("-")[0], sclass=sclass, ltype=lt, delimited=delimited, frame_size=fs, preset=preset,
-                                       gen=False, star=False, dataset=dataset, guess=entry.endswith("guess"), as_sink=not entry.endswith("iter"))
-                key = {"universe": uni, "entry": entry, "sclass": sclass, "ltype": impl.LT_NAMES[lt], "delimited": delimited, "sub": sub.label, "raw_lex": raw_lex}
+                                       gen=False, star=False, dataset=dataset, guess=entry.endswith("guess"), as_sink=not entry.endswith("iter"),
+                                       nsdecl=(nsdecl and not entry.endswith("guess")))
+                key = {"universe": uni, "entry": entry, "sclass": sclass, "ltype": impl.LT_NAMES[lt], "delimited": delimited, "sub": sub.label, "raw_lex": raw_lex,
+                       "nsdecl": cfg["nsdecl"]}
                 rp = {"statements": stmts, "cfg": cfg}
                 out = io.BytesIO()
                 try:
@@ -165,7 +169,7 @@ def main(tier: str) -> int:
                     continue
                 case = {"key": key, "rp": rp, "want": want, "data": data, "dataset": dataset}
                 cases.append(case)
-                traces.append({"id": len(cases) - 1, "rows": terms.jrows_of_frames(frames), "mode": "set",
+                traces.append({"id": len(cases) - 1, "rows": terms.jrows_of_frames(frames), "mode": ("none" if cfg["nsdecl"] else "set"),
                                "exp": [terms.jitem(terms.norm_item(x)) for x in dict.fromkeys(want)]})
                 case["back"] = {
                     "Graph.parse": _safe(parse_into_store, data, dataset),
